@@ -240,7 +240,7 @@ theorem isBlocked_spec (q : Quirks) (h : Hier) (wo : WellOrdered h) (co : Comple
   · subst htd
     exact ⟨false, by simp, by simp⟩
   · have hne : (t == dt) = false := by simpa using htd
-    simp only [hne, Bool.false_eq_true, if_false, hD]
+    simp only [hne, Bool.false_eq_true, if_false, hD, hDa, Bool.false_and]
     obtain ⟨-, hs, hdec⟩ := isDerived_spec q h wo co t dt T D hT hD hDa fuel hf
     obtain ⟨r, h1, h2⟩ := foldr_any (fun m => isDerived q fuel h t dt (some m)) (eb ++ D.block)
       (fun m _ => hdec (some m))
@@ -620,6 +620,316 @@ theorem simple_restr_eq_plain (q : Quirks) (h : Hier) (t u : Nat) (T U : TDef) (
     isDerived q (fuel + 1) h t u (some .restr) = isDerived q (fuel + 1) h t u none := by
   simp [isDerived, hT, hU, hs, hl, clearS, hd]
 
+
+/-! ## substitution combined with xsi:type -/
+
+theorem foldr_head (f : Meth → Option Bool) (l : List Meth) (hf : ∀ m ∈ l, ∃ r, f m = some r) :
+    (l.foldr (fun m acc =>
+        match f m, acc with
+        | some true, _ => [Err.headBlocked]
+        | some false, a => a
+        | none, _ => [Err.fuel]) [] = [] ↔ ∀ m ∈ l, f m = some false) := by
+  induction l with
+  | nil => simp
+  | cons x t ih =>
+    obtain ⟨rx, hx⟩ := hf x (List.mem_cons_self ..)
+    have ih' := ih (fun m hm => hf m (List.mem_cons_of_mem _ hm))
+    simp only [List.foldr_cons, hx]
+    cases rx with
+    | true => simp [hx]
+    | false => simp [hx, ih']
+
+/-- S: what the head element's own block says about the xsi:type of a substitute. -/
+def HeadAllows (h : Hier) (H : EDecl) (x : XsiAttr) : Prop :=
+  match x with
+  | .named t => t = H.ty ∨ ∀ m ∈ H.block, ¬ ∃ ms, Chain h t H.ty ms ∧ some m ∈ ms
+  | _ => True
+
+/-- S: the xsi:type of a substitute names an existing type derived from the MEMBER's declared type. -/
+def XsiDerives (h : Hier) (M : EDecl) (x : XsiAttr) : Prop :=
+  match x with
+  | .absent => True
+  | .unknown => False
+  | .named t => ∃ ms, Chain h t M.ty ms
+
+/-- **C07, substitution combined with xsi:type (dynamic context).**  `check_dynamic_context` raises
+    nothing exactly when the head does not block substitution, no step from the member's declared type
+    to the head's type is blocked by the head or the head's type, the xsi:type (if any) is derived from
+    the MEMBER's declared type, and no step from the xsi type to the head's type uses a method in the
+    HEAD ELEMENT's block (the block of the head's type and of intermediate types is not consulted). -/
+theorem dynContext_ok_iff (q : Quirks) (h : Hier) (wo : WellOrdered h) (co : ComplexOnly h) (H M : EDecl)
+    (TM D : TDef) (hTM : h[M.ty]? = some TM) (hD : h[H.ty]? = some D) (hDa : D.anyType = false)
+    (hMa : TM.anyType = false) (fuel : Nat) (hf : h.length ≤ fuel) (x : XsiAttr) :
+    dynContextErrs q fuel h H M x = [] ↔
+      (H.blockSubst = false ∧ ¬ BlockedSpec h M.ty (H.block ++ D.block) H.ty ∧ XsiDerives h M x ∧
+       HeadAllows h H x) := by
+  have htf : M.ty < fuel := by
+    have := (List.getElem?_eq_some_iff.mp hTM).1; omega
+  obtain ⟨rb, hb1, hb2⟩ := isBlocked_spec q h wo co M.ty H.ty TM D hTM hD hDa H.block fuel htf
+  unfold dynContextErrs
+  cases hbs : H.blockSubst with
+  | true => simp
+  | false =>
+    simp only [Bool.false_eq_true, if_false, hb1, true_and]
+    cases rb with
+    | true =>
+      have := hb2.mp rfl
+      simp [this]
+    | false =>
+      have hnb : ¬ BlockedSpec h M.ty (H.block ++ D.block) H.ty := by
+        intro hh; have := hb2.mpr hh; cases this
+      simp only [hnb, not_false_eq_true, true_and]
+      cases x with
+      | absent => simp [XsiDerives, HeadAllows]
+      | unknown => simp [XsiDerives]
+      | named t =>
+        simp only [XsiDerives, HeadAllows]
+        rw [instType_complex q h fuel t M.ty TM hTM (co TM (List.mem_of_getElem? hTM)).1]
+        cases hT : h[t]? with
+        | none =>
+          have hnone : isDerived q fuel h t M.ty none = none := by
+            cases fuel with
+            | zero => rfl
+            | succ f => simp [isDerived, hT]
+          simp only [hnone]
+          constructor
+          · intro hh; cases hh
+          · rintro ⟨⟨ms, c⟩, -⟩
+            obtain ⟨T, hT'⟩ := chain_valid c
+            rw [hT] at hT'; cases hT'
+        | some T =>
+          have hl : t < fuel := by
+            have := (List.getElem?_eq_some_iff.mp hT).1; omega
+          obtain ⟨hs, -, hdec⟩ := isDerived_spec q h wo co t M.ty T TM hT hTM hMa fuel hl
+          obtain ⟨-, hsH, hdecH⟩ := isDerived_spec q h wo co t H.ty T D hT hD hDa fuel hl
+          obtain ⟨r, hr⟩ := hdec none
+          cases r with
+          | false =>
+            have hno : ¬ ∃ ms, Chain h t M.ty ms := by rw [← hs, hr]; simp
+            simp [hr, hno]
+          | true =>
+            have hyes : ∃ ms, Chain h t M.ty ms := hs.mp hr
+            simp only [hr, hyes, true_and]
+            by_cases hth : t = H.ty
+            · simp [hth]
+            · have hne : (t == H.ty) = false := by simpa using hth
+              simp only [hne, Bool.false_eq_true, if_false, hth, false_or]
+              refine Iff.trans (foldr_head (fun m => isDerived q fuel h t H.ty (some m)) H.block
+                (fun m _ => hdecH (some m))) ?_
+              constructor
+              · intro hall m hm hex
+                have := (hsH m).mpr (Or.inr hex)
+                rw [hall m hm] at this; cases this
+              · intro hall m hm
+                obtain ⟨r', hr'⟩ := hdecH (some m)
+                cases r' with
+                | false => exact hr'
+                | true =>
+                  rcases (hsH m).mp hr' with h1 | h1
+                  · exact absurd h1 hth
+                  · exact absurd h1 (hall m hm)
+
+/-- The verdict of the dynamic context does not depend on the `block` of any type other than the
+    head's type, nor on the extension/restriction block of the member element: in particular the
+    blocks of INTERMEDIATE types of the derivation chain are ignored by the code. -/
+theorem dynContext_ignores_member_block (q : Quirks) (fuel : Nat) (h : Hier) (H M : EDecl) (x : XsiAttr)
+    (b : List Meth) :
+    dynContextErrs q fuel h H { M with block := b } x = dynContextErrs q fuel h H M x := rfl
+
+/-- **C07, a substitute that carries xsi:type.**  The child is accepted exactly when the member is
+    (transitively) in the head's substitution group through non-blocking links and not abstract, the
+    head blocks neither substitution nor a step from the member's type to the head's type, the xsi:type
+    is derived from the member's type and uses no method of the head element's block on its way to the
+    head's type, and the element is valid for the MEMBER's declaration (xsi:type unblocked by the member
+    and the member's type, governing type not abstract, nil and content rules). -/
+theorem substXsi_accept_iff (q : Quirks) (h : Hier) (wo : WellOrdered h) (co : ComplexOnly h) (cs : CSem)
+    (es : List EDecl) (ewo : EWellOrdered es) (head m : Nat) (H M : EDecl) (hH : es[head]? = some H)
+    (hM : es[m]? = some M) (TM D : TDef) (hTM : h[M.ty]? = some TM) (hD : h[H.ty]? = some D)
+    (hDa : D.anyType = false) (hMa : TM.anyType = false) (fuel : Nat) (hf1 : h.length ≤ fuel)
+    (hf2 : es.length ≤ fuel) (i : Inst) :
+    substXsiErrs q fuel h cs es head m i = some [] ↔
+      (Reach es m head ∧ M.abstract = false ∧ H.blockSubst = false ∧
+       ¬ BlockedSpec h M.ty (H.block ++ D.block) H.ty ∧ XsiDerives h M i.xsi ∧ HeadAllows h H i.xsi ∧
+       ElementOk h cs M i) := by
+  have hmf : m < fuel := by
+    have := (List.getElem?_eq_some_iff.mp hM).1; omega
+  obtain ⟨r, hr1, hr2⟩ := reaches_spec es ewo head m m (Nat.le_refl _) fuel hmf M hM
+  have hdyn := dynContext_ok_iff q h wo co H M TM D hTM hD hDa hMa fuel hf1 i.xsi
+  have hel := element_valid_iff q h wo co cs M TM hTM hMa fuel hf1 i
+  unfold substXsiErrs
+  simp only [hH, hM, hr1]
+  cases r with
+  | false =>
+    have : ¬ Reach es m head := by intro hh; have := hr2.mpr hh; cases this
+    simp [this]
+  | true =>
+    have hre : Reach es m head := hr2.mp rfl
+    cases ha : M.abstract with
+    | true => simp
+    | false =>
+      simp only [Bool.false_eq_true, if_false, Option.some.injEq, List.append_eq_nil_iff, hdyn, hel, hre,
+        true_and]
+      constructor
+      · rintro ⟨⟨a, b, c, d⟩, e⟩; exact ⟨a, b, c, d, e⟩
+      · rintro ⟨a, b, c, d, e⟩; exact ⟨⟨a, b, c, d⟩, e⟩
+
+
+/-! ## XSD 1.1 type alternatives with evaluated tests -/
+
+/-- **C07, type alternatives end to end.**  With the tests evaluated over the element's attributes,
+    the governing type is the type of the FIRST alternative that has no test or whose test holds;
+    the declared type when there is none. -/
+theorem selectAltT_first_match (attrs : List (String × String)) (alts : List (Option Test × Nat))
+    (dflt : Nat) :
+    selectAltT attrs alts dflt = ((alts.find? (altHolds attrs)).map (·.2)).getD dflt := by
+  induction alts with
+  | nil => rfl
+  | cons a rest ih =>
+    unfold selectAltT
+    cases hh : altHolds attrs a <;> simp [List.find?, hh, ih]
+
+/-- Position form: the alternatives before the selected one all have a test that is false. -/
+theorem selectAltT_position (attrs : List (String × String)) (pre : List (Option Test × Nat))
+    (a : Option Test × Nat) (post : List (Option Test × Nat)) (dflt : Nat)
+    (hpre : ∀ b ∈ pre, altHolds attrs b = false) (ha : altHolds attrs a = true) :
+    selectAltT attrs (pre ++ a :: post) dflt = a.2 := by
+  induction pre with
+  | nil => simp [selectAltT, ha]
+  | cons b rest ih =>
+    have hb := hpre b (List.mem_cons_self ..)
+    simp only [List.cons_append, selectAltT, hb, Bool.false_eq_true, if_false]
+    exact ih (fun c hc => hpre c (List.mem_cons_of_mem _ hc))
+
+theorem selectAltT_default (attrs : List (String × String)) (alts : List (Option Test × Nat)) (dflt : Nat)
+    (hall : ∀ b ∈ alts, altHolds attrs b = false) : selectAltT attrs alts dflt = dflt := by
+  induction alts with
+  | nil => rfl
+  | cons b rest ih =>
+    have hb := hall b (List.mem_cons_self ..)
+    simp only [selectAltT, hb, Bool.false_eq_true, if_false]
+    exact ih (fun c hc => hall c (List.mem_cons_of_mem _ hc))
+
+/-- A missing attribute makes `=` AND `!=` false (general comparison with the empty sequence), so
+    `not(@a = 'v')` holds while `@a != 'v'` does not. -/
+theorem evalTest_missing (attrs : List (String × String)) (a v : String) (hm : attrVal attrs a = none) :
+    evalTest attrs (.eq a v) = false ∧ evalTest attrs (.ne a v) = false ∧
+    evalTest attrs (.has a) = false ∧ evalTest attrs (.not (.eq a v)) = true := by
+  simp [evalTest, hm]
+
+/-- For a present attribute `!=` is the negation of `=`. -/
+theorem evalTest_present (attrs : List (String × String)) (a v w : String) (hp : attrVal attrs a = some w) :
+    evalTest attrs (.ne a v) = !evalTest attrs (.eq a v) ∧ evalTest attrs (.has a) = true ∧
+    (evalTest attrs (.eq a v) = true ↔ w = v) := by
+  simp [evalTest, hp, bne]
+
+/-! ## union members (get_instance_type) -/
+
+/-- **C07, xsi:type naming a member of a union.**  `get_instance_type` accepts the named type exactly
+    when it is derived from the declared type, or the declared type is a simple union-like type without
+    facets and the named type is a DIRECT member of that union (of the union that is the primitive type
+    of a facet-less restriction). -/
+theorem instType_spec (q : Quirks) (fuel : Nat) (h : Hier) (t d : Nat) (D : TDef) (hD : h[d]? = some D)
+    (r : Bool) (hr : isDerived q fuel h t d none = some r) :
+    instType q fuel h t d = some true ↔
+      (r = true ∨ (D.complex = false ∧ D.unionLike = true ∧ D.facets = false ∧
+        ((∃ p P, D.primUnion = some p ∧ h[p]? = some P ∧ t ∈ P.members) ∨
+         (D.primUnion = none ∧ D.isUnion = true ∧ t ∈ D.members)))) := by
+  unfold instType
+  rw [hr]
+  cases r with
+  | true => simp
+  | false =>
+    simp only [hD, Bool.false_eq_true, false_or]
+    cases hc : D.complex <;> cases hu : D.unionLike <;> cases hf : D.facets <;> simp
+    cases hp : D.primUnion with
+    | none => cases hi : D.isUnion <;> simp
+    | some p =>
+      cases hP : h[p]? with
+      | none => simp [hP]
+      | some P => simp [hP]
+
+/-! ## simple receivers and the requested derivation mode (repaired behaviour) -/
+
+/-- A simple (non-list) type is never derived by extension: with the repair of C07-F4 this holds for
+    builtin types, unions and their restrictions too (whatever `derivation` they carry). -/
+theorem simple_never_by_extension (h : Hier) (t u : Nat) (T U : TDef) (hT : h[t]? = some T)
+    (hU : h[u]? = some U) (hs : T.complex = false) (hl : T.isList = false) (hd : T.deriv ≠ some .ext)
+    (fuel : Nat) : isDerived .repaired (fuel + 1) h t u (some .ext) = some false := by
+  have : (some Meth.ext == T.deriv) = false := by
+    cases hx : T.deriv with
+    | none => rfl
+    | some m => cases m <;> simp_all
+  simp [isDerived, hT, hU, hs, hl, clearS, this, Quirks.repaired]
+
+theorem list_never_by_extension (h : Hier) (t u : Nat) (T U : TDef) (hT : h[t]? = some T)
+    (hU : h[u]? = some U) (hs : T.complex = false) (hl : T.isList = true) (hd : T.deriv = none)
+    (fuel : Nat) : isDerived .repaired (fuel + 1) h t u (some .ext) = some false := by
+  simp [isDerived, hT, hU, hs, hl, hd, clearC, Quirks.repaired]
+
+/-- Hence `block="extension"` alone never blocks a simple type (repaired behaviour). -/
+theorem simple_not_blocked_by_extension (h : Hier) (t dt : Nat) (T D : TDef) (hT : h[t]? = some T)
+    (hD : h[dt]? = some D) (hs : T.complex = false) (hl : T.isList = false) (hd : T.deriv ≠ some .ext)
+    (hDb : ∀ m ∈ D.block, m = .ext) (eb : List Meth) (heb : ∀ m ∈ eb, m = .ext) (fuel : Nat) :
+    isBlocked .repaired (fuel + 1) h t eb dt = some false := by
+  unfold isBlocked
+  by_cases htd : t = dt
+  · simp [htd]
+  · have hne : (t == dt) = false := by simpa using htd
+    simp only [hne, Bool.false_eq_true, if_false, hD, hT]
+    by_cases hc : (D.anyType && T.anyType) = true
+    · simp [hc]
+    simp only [hc, if_false]
+    have hall : ∀ m ∈ eb ++ D.block, m = .ext := by
+      intro m hm
+      rcases List.mem_append.mp hm with h1 | h1
+      · exact heb m h1
+      · exact hDb m h1
+    generalize eb ++ D.block = l at hall
+    induction l with
+    | nil => rfl
+    | cons x rest ih =>
+      have hx := hall x (List.mem_cons_self ..)
+      subst hx
+      simp only [List.foldr_cons, simple_never_by_extension h t dt T D hT hD hs hl hd fuel]
+      exact ih (fun m hm => hall m (List.mem_cons_of_mem _ hm))
+
+/-! ## the behaviours recorded as findings: pinned vs repaired, on the witnesses that the harness
+    replays on the real code (kinds family: SC1/S0, L0/S0, U2/U0, xs:int/xs:integer, C2/xs:anyType) -/
+namespace Witness
+/-- 0 = S0 (simple restriction), 1 = SC0 = extension of S0, 2 = SC1 = extension of SC0 -/
+def f1 : Hier :=
+  [ { complex := false, deriv := some .restr },
+    { base := some 0, deriv := some .ext, simpleContent := true, content := some 0 },
+    { base := some 1, deriv := some .ext, simpleContent := true, content := some 0 } ]
+/-- C07-F1: full statement "SC1 is derived from S0 by restriction ⇔ a restriction step is on the chain"
+    is false for the pinned code (only extension steps), true for the repaired one. -/
+theorem f1_pinned_counterexample : isDerived .pinned 4 f1 2 0 (some .restr) = some true := by decide
+theorem f1_repaired : isDerived .repaired 4 f1 2 0 (some .restr) = some false ∧
+    isDerived .repaired 4 f1 2 0 (some .ext) = some true ∧ isDerived .repaired 4 f1 2 0 none = some true := by decide
+/-- 0 = S0, 1 = L0 = list of S0 -/
+def f2 : Hier := [ { complex := false, deriv := some .restr }, { complex := false, isList := true, item := some 0 } ]
+theorem f2_pinned_counterexample : instType .pinned 3 f2 1 0 = some true := by decide
+theorem f2_repaired : instType .repaired 3 f2 1 0 = some false := by decide
+/-- 0 = S0, 1 = U0 = union(S0), 2 = U1 = restriction of U0, 3 = U2 = restriction of U1 -/
+def f3 : Hier :=
+  [ { complex := false, deriv := some .restr }, { complex := false, isUnion := true, members := [0], unionLike := true },
+    { complex := false, base := some 1, deriv := some .restr, unionLike := true, facets := true, primUnion := some 1 },
+    { complex := false, base := some 2, deriv := some .restr, unionLike := true, facets := true, primUnion := some 1 } ]
+theorem f3_pinned_counterexample : instType .pinned 6 f3 3 1 = some false := by decide
+theorem f3_repaired : instType .repaired 6 f3 3 1 = some true ∧ instType .repaired 6 f3 0 1 = some true := by decide
+/-- 0 = xs:integer, 1 = xs:int (builtin types: `derivation` is None) -/
+def f4 : Hier := [ { complex := false, atomicCls := true }, { complex := false, atomicCls := true, base := some 0 } ]
+theorem f4_pinned_counterexample : isBlocked .pinned 3 f4 1 [.ext] 0 = some true := by decide
+theorem f4_repaired : isBlocked .repaired 3 f4 1 [.ext] 0 = some false ∧
+    isBlocked .repaired 3 f4 1 [.restr] 0 = some true := by decide
+/-- 0 = xs:anyType, 1 = C0 (root), 2 = C1 = extension of C0, 3 = C2 = restriction of C1 -/
+def f5 : Hier :=
+  [ { anyType := true }, {}, { base := some 1, deriv := some .ext }, { base := some 2, deriv := some .restr } ]
+theorem f5_pinned_counterexample : isBlocked .pinned 5 f5 3 [.ext] 0 = some false := by decide
+theorem f5_repaired : isBlocked .repaired 5 f5 3 [.ext] 0 = some true ∧
+    isBlocked .repaired 5 f5 1 [.ext] 0 = some false ∧ isBlocked .repaired 5 f5 1 [.restr] 0 = some true := by decide
+end Witness
+
 /-! ## Non-vacuity -/
 namespace Demo
 /-- 0 = B, 1 = E (extension of B), 2 = R (restriction of E, abstract), 3 = X (unrelated) -/
@@ -662,6 +972,16 @@ example : substVerdict .pinned 4 hier els 0 1 = .accepted := by decide
 example : substVerdict .pinned 4 hier els 0 2 = .blocked := by decide
 example : substVerdict .pinned 4 hier els 0 3 = .notSubstitute := by decide
 example : selectAlt [(true, false, 5), (true, true, 6), (false, false, 7)] 0 = 6 := by decide
+example : selectAltT [("k", "b")] [(some (.eq "k" "a"), 5), (some (.or (.ne "k" "a") (.has "j")), 6), (none, 7)] 0 = 6 := by decide
+example : selectAltT [] [(some (.ne "k" "a"), 5), (some (.not (.eq "k" "a")), 6)] 0 = 6 := by decide
+example : attrVal [("j", "1")] "k" = none ∧ attrVal [("j", "1"), ("k", "a")] "k" = some "a" := by decide
+example : instType .repaired 6 Witness.f3 0 1 = some true := by decide
+/-- a substitute (type E) carrying xsi:type: E itself is accepted; R (restriction of E) is refused by the
+    head's block="restriction" although the member declaration blocks nothing -/
+example : substXsiErrs .pinned 4 hier cs els 0 1 { xsi := .named 1, variant := 1 } = some [] := by decide
+example : substXsiErrs .pinned 4 hier cs els 0 1 { xsi := .named 2, variant := 2 } = some [.headBlocked, .abstractType] := by decide
+example : substXsiErrs .pinned 4 hier cs els 0 1 { xsi := .named 3, variant := 3 } = some [.notDerived, .notDerived, .content] := by decide
+example : dynContextErrs .pinned 4 hier els[0] els[1] (.named 1) = [] := by decide
 end Demo
 
 end XsVerif.Props.C07
